@@ -97,7 +97,6 @@ theorem AdvanceTime_eq (time k : Nat) : Scheduler.AdvanceTime time k = if k ≥ 
 
 theorem stop_eq (time k : Nat) : Scheduler.WakeUpNeeded.stop time k = decide (k > time) := rfl
 theorem skip_eq (time ns : Nat) : Scheduler.Sleep.skip time ns = decide (ns ≤ time) := rfl
-theorem cleanup_eq (time ns : Nat) : Scheduler.SleepPreemptive.cleanup time ns = decide (time ≤ ns) := rfl
 theorem deadline_eq (draw : E → E × Nat) (rc : Nat) (e : E) (st ns : Nat) :
     Scheduler.SleepPreemptive.deadline draw rc e st ns = (rc + 1, (draw e).1, ns + (draw e).2 % st) := rfl
 
